@@ -95,11 +95,12 @@ def is_generator_func(node):
 
 
 class Event:
-    __slots__ = ("kind", "guard", "data", "loops", "func", "node", "seq")
+    __slots__ = ("kind", "guard", "data", "loops", "func", "node", "seq", "stack")
 
-    def __init__(self, kind, guard, data, loops, func, node, seq):
+    def __init__(self, kind, guard, data, loops, func, node, seq, stack=()):
         self.kind, self.guard, self.data, self.loops = kind, guard, data, loops
         self.func, self.node, self.seq = func, node, seq
+        self.stack = stack        # qualified names of the functions active when the event happened (outermost first)
 
     def __repr__(self):
         return "Event(%s %r @%s:%s g=%r)" % (self.kind, self.data, self.func,
@@ -122,6 +123,7 @@ class LoopInfo:
         self.events = (0, 0)      # slice of the event log covered by the body
         self.body_guard = TRUE
         self.invariant_guard = None
+        self.stack = ()           # functions active where the loop runs (outermost first)
 
     def __repr__(self):
         return "<loop %d %s@%s:%s>" % (self.lid, self.kind, self.func, getattr(self.node, "lineno", "?"))
@@ -302,9 +304,12 @@ class Interp:
         fr = self.frames[-1] if self.frames else None
         ev = Event(kind, self.cur_guard(), data, tuple(self.loop_ctx),
                    fr.finfo.qual if fr and fr.finfo else (fr.modname if fr else "?"), node,
-                   len(self.events))
+                   len(self.events), self.call_stack())
         self.events.append(ev)
         return ev
+
+    def call_stack(self):
+        return tuple(f.finfo.qual for f in self.frames if f.finfo is not None)
 
     def simp(self, v):
         """resolve top-level Ite whose condition is decided by the current guard"""
@@ -1871,6 +1876,7 @@ class _LoopMixin:
     def summarise(self, st, kind, it):
         fr = self.frames[-1]
         L = LoopInfo(self.next_loop, st, fr.finfo.qual if fr.finfo else fr.modname)
+        L.stack = self.call_stack()
         self.next_loop += 1
         L.kind = kind
         L.iter = it
